@@ -466,6 +466,8 @@ impl DebugSession {
         };
         let value = serde_json::to_value(rsp)?;
 
+        #[cfg(bs_verif)]
+        crate::verif::sched_point("sess.seq_taken");
         let mut lock = self.io.lock().unwrap();
         lock.write_message(&value)
     }
@@ -481,6 +483,8 @@ impl DebugSession {
 
     fn send_event_raw(&mut self, name: &'static str, body: Option<Value>) -> anyhow::Result<()> {
         let seq = self.next_seq();
+        #[cfg(bs_verif)]
+        crate::verif::sched_point("sess.seq_taken");
         let mut lock = self.io.lock().unwrap();
 
         protocol::send_event(seq, &mut *lock, name, body)
@@ -545,6 +549,8 @@ impl DebugSession {
                     Ok(_) => {
                         let s = seq.fetch_add(1, std::sync::atomic::Ordering::Relaxed);
 
+                        #[cfg(bs_verif)]
+                        crate::verif::sched_point("fout.seq_taken");
                         {
                             let mut lock = io.lock().unwrap();
                             // TODO log it somehow
@@ -574,6 +580,8 @@ impl DebugSession {
                     Ok(_) => {
                         let s = seq.fetch_add(1, std::sync::atomic::Ordering::Relaxed);
 
+                        #[cfg(bs_verif)]
+                        crate::verif::sched_point("ferr.seq_taken");
                         {
                             let mut lock = io.lock().unwrap();
                             // TODO log it somehow
